@@ -73,6 +73,13 @@ Definition remove_node (x : nat) (g : sgraph) : sgraph :=
        (filter (fun e => negb (Nat.eqb (fst e) x) && negb (Nat.eqb (snd e) x)) (sg_edges g))
        (x :: sg_free g).
 
+(* `graph[x] = t` on a live node, and the removal of every outgoing edge of x (the detached
+   edge walker of repair F12; the order of the removals is not observable: all of them go) *)
+Definition set_label (x : nat) (t : tid) (g : sgraph) : sgraph :=
+  mkSG (set_nth x (Some t) (sg_nodes g)) (sg_edges g) (sg_free g).
+Definition remove_out_edges (x : nat) (g : sgraph) : sgraph :=
+  mkSG (sg_nodes g) (filter (fun e => negb (Nat.eqb (fst e) x)) (sg_edges g)) (sg_free g).
+
 Definition is_label (g : sgraph) (t : tid) (x : nat) : bool :=
   match sg_label g x, t with
   | Some GAnd, GAnd | Some GOr, GOr | Some GTrue, GTrue | Some GFalse, GFalse => true
@@ -325,7 +332,11 @@ Fixpoint del_chain (fuel : nat) (g : sgraph) (cur : nat) (stk : list nat) : opti
 
 (* the detached neighbour walker of nx (label t); `cs` = the targets it has not yielded yet.
    After delete_parent_and_chain the walker only runs over freed edges (targets
-   NodeIndex::end(), skipped by contains_node). *)
+   NodeIndex::end(), skipped by contains_node).
+   Repair F12 (fix: d4 loader keeps a true node below an or node): an or node with a true child
+   becomes a true node itself, loses all its outgoing edges, and the walk ends (`break`), so that
+   its parents - visited later in the post-order - drop it like any other true child.  walk2_v0
+   below is the code before that repair ("should never happen": the true child stays). *)
 Fixpoint walk2 (g : sgraph) (nx : nat) (t : tid) (cs : list nat) : option sgraph :=
   match cs with
   | [] => Some g
@@ -334,7 +345,7 @@ Fixpoint walk2 (g : sgraph) (nx : nat) (t : tid) (cs : list nat) : option sgraph
     | Some GTrue =>
       match t with
       | GAnd => walk2 (remove_edge nx c g) nx t r
-      | GOr => walk2 g nx t r
+      | GOr => Some (remove_out_edges nx (set_label nx GTrue g))
       | _ => None                              (* process::exit(1) *)
       end
     | Some GFalse =>
@@ -355,6 +366,35 @@ Definition pass2_body (g : sgraph) (nx : nat) : option sgraph :=
 
 Definition pass2 (g : sgraph) (root : nat) : option sgraph :=
   dfs_fold sg_out pass2_body (sg_fuel g) g [root] [] [].
+
+(* the second traversal before repair F12 *)
+Fixpoint walk2_v0 (g : sgraph) (nx : nat) (t : tid) (cs : list nat) : option sgraph :=
+  match cs with
+  | [] => Some g
+  | c :: r =>
+    match sg_label g c with
+    | Some GTrue =>
+      match t with
+      | GAnd => walk2_v0 (remove_edge nx c g) nx t r
+      | GOr => walk2_v0 g nx t r               (* should never happen *)
+      | _ => None
+      end
+    | Some GFalse =>
+      match t with
+      | GOr => walk2_v0 (remove_edge nx c g) nx t r
+      | GAnd => del_chain (sg_fuel g) g nx []
+      | _ => None
+      end
+    | _ => walk2_v0 g nx t r
+    end
+  end.
+Definition pass2_body_v0 (g : sgraph) (nx : nat) : option sgraph :=
+  match sg_label g nx with
+  | None => Some g
+  | Some t => walk2_v0 g nx t (sg_out g nx)
+  end.
+Definition pass2_v0 (g : sgraph) (root : nat) : option sgraph :=
+  dfs_fold sg_out pass2_body_v0 (sg_fuel g) g [root] [] [].
 
 (* ---- get_literal_diffs: literals below every node reachable from the root ---- *)
 Fixpoint lookup_set (m : list (nat * list nat)) (k : nat) : option (list nat) :=
@@ -461,7 +501,9 @@ Definition to_graph (g : sgraph) : graph :=
   map (fun x => (match sg_label g x with Some t => t | None => GFalse end, sg_out g x))
       (seq 0 (length (sg_nodes g))).
 
-Definition build_d4_graph (toks : list d4token) (n0 : nat) : option (sgraph * nat * nat) :=
+(* `p2` = the second traversal (pass2, or pass2_v0 for the witness of finding F12) *)
+Definition build_d4_graph_with (p2 : sgraph -> nat -> option sgraph)
+  (toks : list d4token) (n0 : nat) : option (sgraph * nat * nat) :=
   match d4_lines (mkBS (mkLS sg_empty [] []) [] [] n0) toks with
   | None => None
   | Some b =>
@@ -470,7 +512,7 @@ Definition build_d4_graph (toks : list d4token) (n0 : nat) : option (sgraph * na
       match add_free (bs_occ b) (seq 1 (bs_total b)) 0 (bs_ls b) with
       | None => None
       | Some (root, s1) =>
-        match pass2 (ls_g s1) root with
+        match p2 (ls_g s1) root with
         | None => None
         | Some g2 =>
           match pass3 (with_g s1 g2) root with
@@ -480,6 +522,9 @@ Definition build_d4_graph (toks : list d4token) (n0 : nat) : option (sgraph * na
         end
       end
   end.
+
+Definition build_d4_graph : list d4token -> nat -> option (sgraph * nat * nat) :=
+  build_d4_graph_with pass2.
 
 (* build_d4_ddnnf + Ddnnf::new: (Ddnnf.nodes as ntype vector, number_of_variables).
 
@@ -496,9 +541,11 @@ Definition build_d4_graph (toks : list d4token) (n0 : nat) : option (sgraph * na
    at most; the rebuild traversal is LoadC2d.dfs_post_order (C10Total.dfs_loop_total).  Not
    modelled: debug_assert!(!is_cyclic_directed(..)) for cycles the root does not reach (a cycle
    the root reaches makes get_literals recurse for ever in the Rust and is `None` here:
-   union_children), u32 wrap-around of feature numbers >= 2^32. *)
-Definition load_d4_gen (toks : list d4token) (n0 : nat) : option (circuit * nat) :=
-  match build_d4_graph toks n0 with
+   union_children), u32 wrap-around of feature numbers >= 2^32, memory exhaustion
+   (since repair F11 the occurrence table and or_triangles grow with the largest feature id). *)
+Definition load_d4_gen_with (p2 : sgraph -> nat -> option sgraph)
+  (toks : list d4token) (n0 : nat) : option (circuit * nat) :=
+  match build_d4_graph_with p2 toks n0 with
   | None => None
   | Some (g, root, total) =>
     if negb (sg_alive g root) then None          (* self.graph[nx] in rebuild *)
@@ -509,6 +556,8 @@ Definition load_d4_gen (toks : list d4token) (n0 : nat) : option (circuit * nat)
       | Some order => option_map (fun C => (C, total)) (flatten fg order [] [])
       end
   end.
+
+Definition load_d4_gen : list d4token -> nat -> option (circuit * nat) := load_d4_gen_with pass2.
 
 End Loader.
 
@@ -526,6 +575,10 @@ Definition load_d4_h (ord : list nat -> list nat) (toks : list d4token) (n : nat
 Definition load_d4_v0 (ord : list nat -> list nat) (toks : list d4token) (n : nat)
   : option (circuit * nat) :=
   load_d4_gen true ord toks n.
+
+(* the loader before repair F12 (an or node keeps its true child) *)
+Definition load_d4_f12_v0 (toks : list d4token) (n : nat) : option (circuit * nat) :=
+  load_d4_gen_with true (fun l => l) pass2_v0 toks n.
 
 (* the same without index recycling (fresh slot for every add_node): used by the
    correspondence to find out whether recycling is observable in the node vector *)
